@@ -43,6 +43,32 @@ Theorem C10_crash_safe_after_recoveries :
 Proof. exact crash_safe_recovered_src. Qed.
 Print Assumptions C10_crash_safe_after_recoveries.
 
+(* Delete with AutoGC and GC: one API call that performs several primitive operations in a
+   row ([steps_seq]): the plain deletes of the target, of its untagged referrers and of the
+   content left dangling (queue order), resp. [Forget live] (drop the digest references
+   of unreachable content, save the index) followed by the plain delete of every blob
+   file outside the live set (directory order).  For EVERY list of primitives (whatever
+   the cascade or the sweep visits, in whatever order), after any history with earlier
+   crashes and for every cut k: the directory found is a crash state of ONE primitive o
+   of the call -- recoverable between the quiescent states before and after o, which are
+   reached from the start of the call by completed primitives -- or the final state.
+   In particular index.json is rewritten before each unlink of the cascade and before
+   the sweep. *)
+Theorem C10_crash_safe_composite :
+  forall (H : list N -> N) (shuffle : nat -> list entry -> list entry),
+    (forall c l e, In e (shuffle c l) <-> In e l) ->
+    forall (h : list hop) (os : list op) (k : nat),
+      let s := runc H shuffle src_inplace src_unlink_first h init in
+      let fsk := crash_seq H shuffle src_inplace src_unlink_first s os k in
+      (exists pre o post,
+         os = pre ++ o :: post /\
+         let sj := run H shuffle src_inplace src_unlink_first pre s in
+         Recoverable H (sfs sj) fsk (sfs (run_op H shuffle src_inplace src_unlink_first sj o))) \/
+      (fsk = sfs (run H shuffle src_inplace src_unlink_first os s) /\
+       layout_ok fsk /\ blob_ok H fsk /\ index_ok fsk).
+Proof. exact crash_safe_composite_src. Qed.
+Print Assumptions C10_crash_safe_composite.
+
 (* the tag mapping a reader derives from index.json is the one before or the one after *)
 Theorem C10_tag_mapping_before_or_after :
   forall (H : list N -> N) (shuffle : nat -> list entry -> list entry),
